@@ -11,7 +11,7 @@ for _p in sorted(glob.glob('/verif/contracts/c_*.py')):
 wanted = set(q for q, c in REGISTRY.items() if True)
 import contracts
 modobj = importlib.import_module('contracts.' + mod)
-repo = Repo('/repo/src', extra_roots=['/verif/contracts'])
+repo = Repo(os.environ.get('PYVC_SRC', '/repo/src'), extra_roots=['/verif/contracts'])
 for q, c in REGISTRY.items():
     if pat and pat not in q: continue
     if getattr(c, '_module', None) != mod or c.assumed: continue
